@@ -90,8 +90,11 @@ def refreshBounded (refreshingMap : List (Sc × Slot)) (refs : List RefSt) : Boo
 
 /-- C03.2 a pick may add a connection only when every READY channel of its picker is at or above
     the watermark, the pool is below maxSize and nothing is idle or connecting -/
-def growthAllowed (v : ImplView) (wm max : Nat) (ready : List Slot) (reported : List (Sc × CState)) : Bool :=
-  (ready.all fun j => match v.refs[j]? with | some r => r.streamsCnt ≥ (wm : Int) | none => false) &&
+def growthAllowed (v : ImplView) (wm max : Nat) (ready : List Slot) (reported : List (Sc × CState))
+    (inflight : List Slot) : Bool :=
+  -- the load of a channel is what the history says (picks placed on it minus completions), not the
+  -- implementation's own counter
+  (ready.all fun j => j < v.refs.length && (inflight.filter (· == j)).length ≥ wm) &&
   v.scRefs.length < max &&
   !(v.scStates.any fun p => p.2 == .idle || p.2 == .connecting) &&
   -- judged by what gRPC last *reported* for the pool's connections, not only by the balancer's table
@@ -364,7 +367,7 @@ def MonState.observe (m : MonState) (op : Op) (evs : List String) (post : Option
         -- growth (C03.2): only a saturated pick below maxSize may add a channel, and it is told to wait
         if !newScs.isEmpty then
           hits := hits ++ ["pool.growth_by_pick"]
-          if !(growthAllowed v c.wm c.max ready m.reported && evs.contains "nosc" && placed.isEmpty) || boundSlot.isSome then
+          if !(growthAllowed v c.wm c.max ready m.reported (m.calls.map (·.slot)) && evs.contains "nosc" && placed.isEmpty) || boundSlot.isSome then
             fails := fails ++ [("C03", "growth_only_when_saturated")]
         match placed.head? with
         | some sc =>
